@@ -108,7 +108,11 @@ def group_task(task):
     mix = task[6] if len(task) > 6 else "ymd"      # notation of the second operand (the first is ymd)
     sh = Shard()
     texts = [dr.text(e, with_time) for e in group]
-    ptexts = texts if mix == "ymd" else [dr.text(e, with_time, mix) for e in group]
+    if mix in ("epoch", "epoch-both") and not with_time:
+        mix = "ymd"
+    ptexts = texts if mix == "ymd" else [dr.text(e, with_time, "epoch" if mix == "epoch-both" else mix) for e in group]
+    if mix == "epoch-both":
+        texts = ptexts
     for i, ea in enumerate(group):
         key, outs, s2 = dr.row_task((bindir, i, fmt, texts[i], ptexts))
         sh.merge(s2)
@@ -159,7 +163,7 @@ def main(tier, seed):
             with_time = not (date_only_ok and g % 2 == 1)
             grp = dr.make_group(rng, with_time, size=gsize)
             # every fourth group with the second operand in another notation than the first
-            tasks.append((bindir, us, fmt_of(us, rng, variant), grp, with_time, True, ["ymd", "ymd", "ymd", ["ywd", "ymcw", "yd"][variant % 3]][variant % 4]))
+            tasks.append((bindir, us, fmt_of(us, rng, variant), grp, with_time, True, ["ymd", "ymd", "ymd", ["ywd", "ymcw", "yd", "epoch", "epoch-both"][variant % 5]][variant % 4]))
         # one permuted order per subset
         if len(us) > 1:
             perm = list(us)
